@@ -19,7 +19,7 @@ event queries (unfiltered, by emitter, by key, paged) must equal a naive scan of
 """
 import json
 import vlib
-from C03 import behaviours, h4_fixed, selftest, H4_KEY
+from C03 import behaviours, h4_fixed, note_unreproduced, run_engine_keep, selftest, H4_KEY
 
 
 def corrupt_idx(b):
@@ -64,9 +64,18 @@ def run(ctx):
     bs = behaviours(ctx, "StateHistory_sim.cfg", 6 if thorough else 2, 17 * (150 if thorough else 50), fix, 0)
     # small alphabet around zero writes: most behaviours revert a block with a no-op zero write
     bs += behaviours(ctx, "StateHistory_h4sim.cfg", 2 if thorough else 1, 11 * (60 if thorough else 12), fix, 50)
-    selftest(ctx, binary, "TestRevertReplay", bs, corrupt_idx)
-    res = ctx.run_engine(binary, "TestRevertReplay", {"behaviours": bs}, timeout=3000)
+    res = run_engine_keep(ctx, binary, "TestRevertReplay", {"behaviours": bs}, timeout=3000)
     ctx.absorb(res, "statehist", "TestRevertReplay")
+    # concurrent round: readers of the retained blocks during Store ; RevertHead cycles
+    nconc = 24 if thorough else 8
+    cres = run_engine_keep(ctx, binary, "TestHistConcurrent",
+                           {"behaviours": bs[:nconc], "rounds": 120 if thorough else 40, "readers": 4, "mode": "revert"}, timeout=1500)
+    ctx.absorb(cres, "statehist", "TestHistConcurrent")
+    ctx.coverage["concurrent_rounds"] = cres.get("replayed", 0)
+    # the binding self-test comes last: it can only turn a clean run into Broken, never hide a violation
+    if not ctx.violations:
+        selftest(ctx, binary, "TestRevertReplay", bs, corrupt_idx)
+    note_unreproduced(ctx)
     ctx.coverage["behaviours_generated"] = len(bs)
     ctx.coverage["steps_replayed"] = res.get("steps", 0)
     ctx.coverage["model_fix_h4"] = fix
@@ -76,6 +85,7 @@ def run(ctx):
         "a class is declared at most once per chain and every class definition a block delivers is listed in its declared classes",
         "chains stay inside one bloom-filter window (8192 blocks); the running event filter is compared through event queries",
         "databases compared as complete key/value dumps of db/memory; pebble equivalence is C15",
+        "values returned by the API (blocks, state updates, transactions, receipts, commitments, reverse diffs, class definitions) and the inputs of Store are re-encoded after every later step and must not have changed",
         "after a Restart step nothing is read through the new process before the next step (so that step is its first operation)",
     ]
     return ctx.finish(
